@@ -7,6 +7,9 @@ from props import fitlib
 
 PROPERTY = 'C08'
 OPTS = dict(timeout=120000, maxpaths=40, abs_scale=1e-6, job_timeout=900)
+# concrete replay: the real minimisers (ODRPACK, MINUIT, Nelder-Mead) only converge to about 1e-5 relative; a seeded / genuine defect in the
+# sensitivities is O(1). Comparisons that depend on the minimiser's convergence use this tolerance in replay mode.
+CONC_TOL = 5e-3
 
 
 def _models(cx):
@@ -18,6 +21,7 @@ def _models(cx):
         'exp2d': (3, lambda a, x: a[0] * anp.exp(-a[1] * x[0]) + a[2] * x[1]),
         'power': (2, lambda a, x: a[0] * x * x + a[1] * a[1] * x),
         'line': (2, lambda a, x: a[0] + a[1] * x),
+        'plane2': (2, lambda a, x: a[0] * x[0] + a[1] * x[0] * x[1]),
     }
 
 
@@ -92,7 +96,8 @@ def h_nonlin(cx, model, xs, ylay, priors=None, correlated=False, method=None, nu
             return
         H, M, X = solves[0]
         nd = npts + len(prows)
-        cx.expect(H.shape == (n_parms, n_parms) and M.shape == (n_parms, nd), 'shapes of H and M', '%s %s' % (H.shape, M.shape))
+        if not cx.expect(H.shape == (n_parms, n_parms) and M.shape == (n_parms, nd), 'shapes of H and M', '%s %s' % (H.shape, M.shape)):
+            return
         # (A) H = Hessian of the documented chi-square w.r.t. the parameters at the stationary point
         Hs = dual.hessian(lambda q: chi2(list(q), yv, pv))(np.array(p, dtype=object))
         for j in range(n_parms):
@@ -117,7 +122,7 @@ def h_nonlin(cx, model, xs, ylay, priors=None, correlated=False, method=None, nu
         g = dual.jacobian(lambda q: chi2(list(q), yv, pv))(np.array(p, dtype=object))
         scale = max(1.0, float(chi2(p, yv, pv)))
         for j in range(n_parms):
-            cx.prove_eq(float(g[j]) / scale + 1.0, 1.0, 'stationary point[%d]' % j)
+            cx.prove(abs(float(g[j]) / scale) <= CONC_TOL, 'stationary point[%d]' % j)
         Hs = np.array(dual.hessian(lambda q: chi2(list(q), yv, pv))(np.array(p, dtype=object)), dtype=float)
         grad_p = lambda d: dual.jacobian(lambda q: chi2(list(q), list(d[:npts]), list(d[npts:])))(np.array(p, dtype=object))
         Ms = np.array(dual.jacobian(grad_p)(np.array(yv + pv, dtype=object)), dtype=float)
@@ -125,10 +130,10 @@ def h_nonlin(cx, model, xs, ylay, priors=None, correlated=False, method=None, nu
             lhs = Hs @ np.array(rcomp, dtype=float) + Ms @ np.array(dcomp, dtype=float)
             nrm = np.abs(Ms @ np.array(dcomp, dtype=float)).max() + 1e-12
             for j in range(n_parms):
-                cx.prove_eq(lhs[j] / nrm + 1.0, 1.0, 'implicit-function rule[%d] %s' % (j, lab))
+                cx.prove(abs(lhs[j] / nrm) <= CONC_TOL, 'implicit-function rule[%d] %s' % (j, lab))
 
 
-def h_tls(cx, model, xlay, ylay):
+def h_tls(cx, model, xlay, ylay, xdim=1):
     """total least squares: ODR contract = stationary point of the documented chi-square incl. the x-residual term"""
     import pyerrors as pe
     rec = fitlib.install(cx, {})
@@ -139,7 +144,8 @@ def h_tls(cx, model, xlay, ylay):
     npts = len(Ys)
     dX = [o.dvalue for o in xobs]
     dY = [o.dvalue for o in yobs]
-    out = pe.total_least_squares(xobs, yobs, f, silent=True)
+    xarg = xobs if xdim == 1 else [xobs[k * npts:(k + 1) * npts] for k in range(xdim)]     # row-major: x.ravel() is the flat list
+    out = pe.total_least_squares(xarg, yobs, f, silent=True)
     res = out.fit_parameters
     cx.expect(len(res) == n_parms, 'number of parameters')
     cx.expect(out.dof == npts - n_parms, 'dof', str(out.dof))
@@ -148,7 +154,8 @@ def h_tls(cx, model, xlay, ylay):
 
     def chi2(q, x, y):
         beta, xi = list(q[:n_parms]), list(q[n_parms:])
-        model_ = np.asarray(f(np.asarray(beta, dtype=object), np.asarray(xi, dtype=object)), dtype=object).reshape(-1)
+        xs_ = np.asarray(xi, dtype=object) if xdim == 1 else np.asarray(xi, dtype=object).reshape(xdim, npts)
+        model_ = np.asarray(f(np.asarray(beta, dtype=object), xs_), dtype=object).reshape(-1)
         return sum(((y[i] - model_[i]) / dY[i]) * ((y[i] - model_[i]) / dY[i]) for i in range(npts)) + \
             sum(((x[i] - xi[i]) / dX[i]) * ((x[i] - xi[i]) / dX[i]) for i in range(m))
     datas = Xs + Ys
@@ -164,6 +171,9 @@ def h_tls(cx, model, xlay, ylay):
             return
         (H1, Mx, Xx), (H2, My, Xy) = solves
         nq = n_parms + m
+        if not cx.expect(H1.shape == (nq, nq) and H2.shape == (nq, nq) and Mx.shape == (nq, m) and My.shape == (nq, npts),
+                         'the full Hessian and the full mixed-derivative blocks are handed to the linear solver', '%s %s %s %s' % (H1.shape, H2.shape, Mx.shape, My.shape)):
+            return
         Hs = dual.hessian(lambda z: chi2(list(z), xv, yv))(np.array(q, dtype=object))
         for j in range(nq):
             for l in range(nq):
@@ -196,7 +206,7 @@ def h_tls(cx, model, xlay, ylay):
         g = dual.jacobian(lambda z: chi2(list(z), xv, yv))(np.array(q, dtype=object))
         scale = max(1.0, float(chi2(q, xv, yv)))
         for j in range(len(q)):
-            cx.prove_eq(float(g[j]) / scale + 1.0, 1.0, 'stationary point[%d]' % j)
+            cx.prove(abs(float(g[j]) / scale) <= CONC_TOL, 'stationary point[%d]' % j)
         Hs = np.array(dual.hessian(lambda z: chi2(list(z), xv, yv))(np.array(q, dtype=object)), dtype=float)
         gq_x = lambda d: dual.jacobian(lambda z: chi2(list(z), list(d), yv))(np.array(q, dtype=object))
         gq_y = lambda d: dual.jacobian(lambda z: chi2(list(z), xv, list(d)))(np.array(q, dtype=object))
@@ -207,7 +217,7 @@ def h_tls(cx, model, xlay, ylay):
             pred = S[:n_parms] @ np.array(dcomp, dtype=float)
             nrm = np.abs(pred).max() + 1e-12
             for l in range(n_parms):
-                cx.prove_eq((rcomp[l] - pred[l]) / nrm + 1.0, 1.0, 'implicit-function rule[%d] %s' % (l, lab))
+                cx.prove(abs((rcomp[l] - pred[l]) / nrm) <= CONC_TOL, 'implicit-function rule[%d] %s' % (l, lab))
 
 
 def h_fit_lin(cx, xkind):
@@ -264,6 +274,8 @@ def jobs(tier, seed):
     add('tls', model='line', xlay=[E, F_, Ei], ylay=[F_, E, CV])
     add('tls', model='exp', xlay=[E, E, E], ylay=[E, F_, E])
     add('tls', model='rational', xlay=[E, F_, E], ylay=[E, E, F_])
+    add('tls', model='exp2d', xlay=[E, E, E, F_, Ei, E], ylay=[E, F_, E], xdim=2)
+    add('tls', model='plane2', xlay=[E, F_, E, Ei, E, F_], ylay=[E, E, F_], xdim=2)
     if tier == 'thorough':
         add('tls', model='exp', xlay=[E, E, F_, Ei], ylay=[E, F_, E, E])
         add('nonlin', model='cosh', xs=[0.0, 1.0, 3.0, 4.0], ylay=[E, E, F_, Ei], correlated=True)
